@@ -9,11 +9,13 @@ from monkeytype.tracing import CallTrace
 from monkeytype.typing import make_typed_dict
 
 ANNOS = [None, None, None, "int", "List[int]", "Optional[str]", '"Helper"', "UserId", 'Dict[str, "Helper"]']
-WHERE = ["top", "method", "classmethod", "staticmethod", "property", "inner", "deep", "async", "gen", "asyncmethod", "genmethod"]
+WHERE = ["top", "method", "classmethod", "staticmethod", "property", "inner", "deep", "async", "gen", "asyncmethod", "genmethod",
+         "subclassmethod", "substaticmethod", "subproperty"]
 NAMES = ["a", "b", "cc", "data", "x1", "q", "long_parameter_name_number_one", "another_rather_long_parameter_name",
          "yet_another_very_long_parameter_name_to_force_wrapping", "value_with_a_name_that_is_forty_chars_long"]
 FNAMES = ["f", "g", "compute_something_rather_long_named_function", "h"]
-HEADER = "from typing import *\nfrom fxh import Base as Helper\nUserId = NewType('UserId', int)\n\n"
+HEADER = ("from typing import *\nfrom fxh import Base as Helper\nUserId = NewType('UserId', int)\n\n"
+          "class myclassmethod(classmethod):\n    pass\n\nclass mystaticmethod(staticmethod):\n    pass\n\nclass myproperty(property):\n    pass\n\n")
 
 
 def traced_types():
@@ -42,8 +44,9 @@ def func(draw, i):
         ps.append(dict(name=name, kind=kd, default=d, anno=draw(st.sampled_from(ANNOS)),
                        traced=draw(st.sampled_from([0, 0, 1, 2, 3, 4, 5, 6, 7, 8, 9, 9, 10]))))
     where = draw(st.sampled_from(WHERE))
-    return dict(i=i, ps=ps if where != "property" else [], varargs=draw(st.sampled_from([None, None, "args"])) if where != "property" else None,
-                varkw=draw(st.sampled_from([None, None, "kwargs"])) if where != "property" else None, where=where,
+    return dict(i=i, ps=ps if where not in ("property", "subproperty") else [], varargs=draw(st.sampled_from([None, None, "args"])) if where not in ("property", "subproperty") else None,
+                varkw=draw(st.sampled_from([None, None, "kwargs"])) if where not in ("property", "subproperty") else None, where=where,
+                second_trace=draw(st.sampled_from([None, None, "exception", "exception", "other-return"])),
                 ret_anno=draw(st.sampled_from(ANNOS)), outcome=draw(st.sampled_from(["return", "yield", "yield+return", "yield+none", "exception"])),
                 ret_traced=draw(st.sampled_from([1, 2, 3, 5, 6, 9])), yield_traced=draw(st.sampled_from([1, 2, 3, 5])),
                 recv_anno=draw(st.sampled_from([None, None, '"K"', "Any"])),
@@ -93,8 +96,9 @@ def render(funcs, annotate_receiver=False):
         elif w == "deep":
             deep.append(f"            def {f['fname']}({sig(f, 'self')}){ret}:\n                pass\n")
         else:
-            dec = {"classmethod": "    @classmethod\n", "staticmethod": "    @staticmethod\n", "property": "    @property\n"}.get(w, "")
-            recv = {"classmethod": "cls", "staticmethod": None}.get(w, "self")
+            dec = {"classmethod": "    @classmethod\n", "staticmethod": "    @staticmethod\n", "property": "    @property\n",
+                   "subclassmethod": "    @myclassmethod\n", "substaticmethod": "    @mystaticmethod\n", "subproperty": "    @myproperty\n"}.get(w, "")
+            recv = {"classmethod": "cls", "staticmethod": None, "subclassmethod": "cls", "substaticmethod": None}.get(w, "self")
             cls.append(dec + f"    {a}def {f['fname']}({sig(f, recv)}){ret}:\n        {body}\n")
     L += top
     L.append("class K:")
@@ -115,7 +119,7 @@ def live_function(mod, f):
     if w == "deep":
         return getattr(mod.K.Inner.Deep, f["fname"]), ("K", "Inner", "Deep")
     raw = mod.K.__dict__[f["fname"]]
-    fn = raw.__func__ if w in ("classmethod", "staticmethod") else (raw.fget if w == "property" else raw)
+    fn = raw.__func__ if w in ("classmethod", "staticmethod", "subclassmethod", "substaticmethod") else (raw.fget if w in ("property", "subproperty") else raw)
     return fn, ("K",)
 
 
@@ -136,12 +140,12 @@ def traces_for(mod, funcs, k=3):
             continue
         fn, path = live_function(mod, f)
         at = {p["name"]: resolve_traced(p["traced"], k) for p in f["ps"] if p["traced"] != 0}
-        if path and f["where"] not in ("staticmethod",):
+        if path and f["where"] not in ("staticmethod", "substaticmethod"):
             # the tracer records the receiver too (its type must never be rendered)
             klass = mod
             for part in path:
                 klass = getattr(klass, part)
-            if f["where"] == "classmethod":
+            if f["where"] in ("classmethod", "subclassmethod"):
                 from typing import Type
                 at["cls"] = Type[klass]
             else:
@@ -150,6 +154,12 @@ def traces_for(mod, funcs, k=3):
         rt = resolve_traced(f["ret_traced"], k) if oc in ("return", "yield+return") else (type(None) if oc == "yield+none" else None)
         yt = resolve_traced(f["yield_traced"], k) if oc.startswith("yield") else None
         traces.append(CallTrace(fn, at, rt, yt))
+        # a second trace of another shape for the same function: the call raised (nothing returned, nothing yielded), or
+        # returned the same type again; absent return/yield of one trace must not leak into the merged annotation
+        if f.get("second_trace") == "exception":
+            traces.append(CallTrace(fn, dict(at), None, None))
+        elif f.get("second_trace") == "other-return" and rt is not None:
+            traces.append(CallTrace(fn, {}, rt, yt))
         live[(path, f["fname"])] = (fn, f, at, rt, yt)
     return traces, live
 
